@@ -237,6 +237,7 @@ func (g *Gen) Step() bool {
 			choice{g.wt("deleteburst"), func() { g.opDeleteBurst(conns) }},
 			choice{g.wt("refburst"), func() { g.opRefBurst(conns) }},
 			choice{g.wt("recheckburst"), func() { g.opRecheckBurst(conns) }},
+			choice{g.wt("getoverlap"), func() { g.opGetOverlapBurst(conns) }},
 			choice{g.wt("throtburst"), func() { g.opThrottleBurst(conns) }},
 			choice{g.wt("gcburst"), func() { g.opGCBurst(conns) }},
 			choice{g.wt("aliasburst") * boolInt(len(g.qnames) > 0), func() { g.opAliasBurst(conns) }},
@@ -1253,6 +1254,118 @@ func (g *Gen) opRefBurst(conns []*Client) {
 		} else if n == 1 {
 			g.w.Exec(Op{K: "creq", C: c.Idx, ID: g.nextID(c), M: "unsubscribe." + holder})
 		}
+	}
+}
+
+// opGetOverlapBurst: a subscribe to a tree stays pending on one slow child
+// while a get of another tree that shares a child with it runs to completion;
+// then events for the shared child; then the slow child loads. The get must
+// leave the shared child exactly as the pending subscribe needs it: handed
+// over by the subscribe's response, its events after that.
+func (g *Gen) opGetOverlapBurst(conns []*Client) {
+	c := g.conn(conns)
+	refsOf := func(d *ResDef) []string {
+		var out []string
+		for _, v := range d.Model {
+			if v.K == 'r' {
+				out = append(out, v.R)
+			}
+		}
+		for _, v := range d.Coll {
+			if v.K == 'r' {
+				out = append(out, v.R)
+			}
+		}
+		sort.Strings(out)
+		return out
+	}
+	plain := func(name string) bool {
+		d := g.w.Svc.def(name)
+		return d != nil && d.QueryMap == nil && !d.PerCID && !d.Missing && !strings.Contains(name, "{") && c.Ref.Held[name] == nil
+	}
+	type cand struct{ p2, p1, x, y string }
+	var cands []cand
+	for i := range g.w.Cfg.Resources {
+		d2 := &g.w.Cfg.Resources[i]
+		if !plain(d2.Name) {
+			continue
+		}
+		r2 := refsOf(d2)
+		for _, x := range r2 {
+			for _, y := range r2 {
+				if x == y || !plain(x) || !plain(y) || x == d2.Name || y == d2.Name {
+					continue
+				}
+				for j := range g.w.Cfg.Resources {
+					d1 := &g.w.Cfg.Resources[j]
+					if d1.Name == d2.Name || d1.Name == x || d1.Name == y || !plain(d1.Name) {
+						continue
+					}
+					for _, r := range refsOf(d1) {
+						if r == x {
+							cands = append(cands, cand{d2.Name, d1.Name, x, y})
+						}
+					}
+				}
+			}
+		}
+	}
+	if len(cands) == 0 {
+		return
+	}
+	k := cands[rapid.IntRange(0, len(cands)-1).Draw(g.t, "gocand")]
+	answer := func(subject string) bool {
+		for _, pv := range g.w.PendingSorted() {
+			if pv.P.Subject == subject {
+				op := Op{K: "ans", S: pv.P.Subject, Q: pv.P.Query, A: actorEnc(pv.Actor), N: pv.Ord, O: "ok"}
+				if strings.HasPrefix(subject, "access.") {
+					op.P = `{"get":true,"call":"*"}`
+				}
+				g.w.Exec(op)
+				return true
+			}
+		}
+		return false
+	}
+	g.w.Exec(Op{K: "creq", C: c.Idx, ID: g.nextID(c), M: "subscribe." + k.p2})
+	answer("access." + k.p2)
+	answer("get." + k.p2)
+	answer("get." + k.x)
+	// everything below x, but never y
+	for i := 0; i < 12; i++ {
+		done := true
+		for _, pv := range g.w.PendingSorted() {
+			if strings.HasPrefix(pv.P.Subject, "get.") && pv.P.Subject != "get."+k.y {
+				answer(pv.P.Subject)
+				done = false
+				break
+			}
+		}
+		if done {
+			break
+		}
+	}
+	g.w.Exec(Op{K: "creq", C: c.Idx, ID: g.nextID(c), M: "get." + k.p1})
+	answer("access." + k.p1)
+	for i := 0; i < 12; i++ {
+		done := true
+		for _, pv := range g.w.PendingSorted() {
+			if strings.HasPrefix(pv.P.Subject, "get.") && pv.P.Subject != "get."+k.y {
+				answer(pv.P.Subject)
+				done = false
+				break
+			}
+		}
+		if done {
+			break
+		}
+	}
+	n := rapid.IntRange(1, 3).Draw(g.t, "gonev")
+	for i := 0; i < n; i++ {
+		g.w.Exec(Op{K: "custom", S: k.x, M: "custom"})
+	}
+	if rapid.IntRange(0, 3).Draw(g.t, "goleave") > 0 {
+		answer("get." + k.y)
 	}
 }
 
